@@ -184,8 +184,19 @@ def layout(pl, rng, p_sub=0.35, p_ignore=0.12, p_dup=0.12, p_second=0.1, p_third
             ups = [g2 for g2 in mdirs if g2 != d and (g2 == '' or d.startswith(g2 + '/'))]
             g2 = rng.choice(ups) if ups else gdir
             e2 = {'tag': 'MANIFEST', 'path': rel(mp, g2), 'target': mp, 'hashes': rng.choice(HASHSETS[1:]), 'dup': 'manifest-twice'}
+            r = rng.random()
+            if r < 0.25 and not getattr(pl, 'no_conflicts', False):
+                # the second reference carries a WRONG digest: only one of the two is checked when the Manifest is loaded, the
+                # merged entry is checked by the walk
+                e2['bad_hash'] = True
+                e2['dup'] = 'manifest-twice-bad'
+            elif r < 0.4 and not getattr(pl, 'no_conflicts', False):
+                # ... or the file is listed as plain DATA as well, with a wrong digest
+                e2['tag'] = 'DATA'
+                e2['bad_hash'] = True
+                e2['dup'] = 'data-for-manifest-bad'
             pl.manifests[mfile(g2)].append(e2)
-            pl.notes.append('dup:manifest-twice')
+            pl.notes.append('dup:' + e2['dup'])
     # decorations
     if rng.random() < 0.15:
         # a DIST entry named like a listed file of the same Manifest (a local copy of a distfile)
